@@ -59,6 +59,7 @@ def run(repo, rep, tier):
     _formatter_total(repo, rep)
     _source_identity(repo, rep)
     _extent(repo, rep)
+    _rebuilt(repo, rep)
     _retype(repo, rep)
     _handler(repo, rep)
     _functions(repo, rep)
@@ -340,6 +341,13 @@ def _extent(repo, rep):
               "Token-preserving method applied to it)",
               construct="decode-keeps-token", where=L.where(dh),
               detail="; ".join(bad)[:160])
+
+
+def _rebuilt(repo, rep):
+    # the excerpt and the column of a failing ${...} inside a processing
+    # instruction are taken from a token the program assembles by hand
+    from .c11 import rebuilt_tokens
+    rebuilt_tokens(repo, rep, rule="R12.2")
 
 
 def _retype(repo, rep):
